@@ -107,6 +107,10 @@ func (d *oaDoc) judgeRequest(w *rt.WireReq) (matched bool, errs []string, ambigu
 				return true, errs, "empty value outside the body (present or absent is ambiguous)"
 			}
 		}
+		if p.in == "header" {
+			errs = append(errs, d.evalHeader(p.schema, vals, p.in+":"+p.name)...)
+			continue
+		}
 		val, perr := d.parseParam(p.schema, vals)
 		if perr != "" {
 			errs = append(errs, "type@"+p.in+":"+p.name+": "+perr)
@@ -238,12 +242,7 @@ func (d *oaDoc) judgeResponse(wr *rt.WireReq, w *rt.WireResp, meant string) (err
 			}
 			continue
 		}
-		val, perr := d.parseParam(hm["schema"], vals)
-		if perr != "" {
-			errs = append(errs, "type@header:"+strings.ToLower(name)+": "+perr)
-			continue
-		}
-		d.eval(hm["schema"], val, "header:"+strings.ToLower(name), &errs, 0)
+		errs = append(errs, d.evalHeader(hm["schema"], vals, "header:"+strings.ToLower(name))...)
 	}
 	return errs, ""
 }
@@ -393,4 +392,39 @@ func (d *oaDoc) catchAllSpansSegments(w *rt.WireReq) bool {
 		}
 	}
 	return false
+}
+
+// evalHeader judges the value(s) of a header. An array-typed header (style simple) is a comma separated list;
+// HTTP allows the list to be spread over several header lines and optional white space around the commas, and a
+// string element may itself contain a comma: both readings (every line is one element / lines are split on commas)
+// are tried and the one with fewer complaints judges.
+func (d *oaDoc) evalHeader(schema any, vals []string, path string) []string {
+	readings := [][]string{vals}
+	if s := d.deref(schema); s != nil {
+		if t, _ := s["type"].(string); t == "array" {
+			var split []string
+			for _, line := range vals {
+				for _, e := range strings.Split(line, ",") {
+					split = append(split, strings.TrimSpace(e))
+				}
+			}
+			if len(split) != len(vals) {
+				readings = append(readings, split)
+			}
+		}
+	}
+	var best []string
+	for i, r := range readings {
+		var errs []string
+		val, perr := d.parseParam(schema, r)
+		if perr != "" {
+			errs = append(errs, "type@"+path+": "+perr)
+		} else {
+			d.eval(schema, val, path, &errs, 0)
+		}
+		if i == 0 || len(errs) < len(best) {
+			best = errs
+		}
+	}
+	return best
 }
